@@ -460,6 +460,35 @@ def iteration_order(ctx: Ctx, rule: str) -> None:
                "" if ok else f"the walk over the object hierarchy is no longer components-first (sequence {bad}, guard ok={ok_guard}, args ok={ok_args}): an abort for an image can come after the vm-level state was already changed")
 
 
+def iteration_isolation(ctx: Ctx, rule: str) -> None:
+    """The object iteration writes only into the per-object copy it yields: the parameters it was called with (the caller's, and on the
+    recursive level the composite's own copy) keep naming all objects of the type -- a restriction written into them outlives the loop
+    (the vm-level view handed to the backends would name only the last image)."""
+    fref = f"{SETUP}:_parametric_object_iteration"
+    fn = ctx.repo.func(fref)
+    ctx.touch(fref)
+    p0 = fn.params()[0]
+    writes = []
+    for n_ in ast.walk(fn.node):
+        if isinstance(n_, (ast.Assign, ast.AugAssign, ast.Delete)):
+            tg = n_.targets if not isinstance(n_, ast.AugAssign) else [n_.target]
+            for t_ in tg:
+                if isinstance(t_, ast.Subscript) and ast.unparse(t_.value) == p0:
+                    writes.append(f"line {n_.lineno}: {ast.unparse(n_)[:80]}")
+                if isinstance(t_, ast.Name) and t_.id == p0:
+                    writes.append(f"line {n_.lineno}: re-binds {p0}")
+        elif isinstance(n_, ast.Call) and isinstance(n_.func, ast.Attribute) and n_.func.attr in norm.MUTATORS and ast.unparse(n_.func.value) == p0:
+            writes.append(f"line {n_.lineno}: {ast.unparse(n_)[:80]}")
+    copies = [s_ for s_ in ast.walk(fn.node) if isinstance(s_, ast.Assign) and ast.unparse(s_.targets[0]) == "obj_params"]
+    ok_copy = len(copies) == 1 and ast.unparse(copies[0].value) == f"{p0}.object_params(params_obj_name)"
+    restr = [s_ for s_ in ast.walk(fn.node) if isinstance(s_, ast.Assign) and ast.unparse(s_.targets[0]) == "obj_params[params_obj_type]"]
+    ok_restr = len(restr) == 1 and ast.unparse(restr[0].value) == "params_obj_name"
+    ok = not writes and ok_copy and ok_restr
+    ctx.record(rule, "OWNER", fref, f"the iteration never writes its input `{p0}`; the restriction to the current object (<type> = <name>) goes into the per-object copy {p0}.object_params(<name>) only",
+               ok, {"writes_to_input": writes}, "" if ok else (f"the object iteration writes into the parameters it was given ({writes[0]}): after the loop over a vm's images the vm-level "
+                                                            "parameters name only the last image" if writes else "the per-object copy / its restriction to the current object changed"))
+
+
 def object_param_provenance(ctx: Ctx, rule: str) -> None:
     """Inside the per-object loop every parameter is read from the drilled-down per-object view, never from the call's run_params."""
     ops = ("show", "check", "get", "set", "unset", "push", "pop")
@@ -482,6 +511,7 @@ def object_param_provenance(ctx: Ctx, rule: str) -> None:
 
 def run(ctx: Ctx) -> None:
     ctx.call(iteration_order, "11")
+    ctx.call(iteration_isolation, "11w")
     ctx.call(skip_guards_first, "13")
     ctx.call(object_param_provenance, "12")
     ctx.call(op_table, "1", "get")
